@@ -147,7 +147,10 @@ Prods(sym, rich) ==
           <<NT("MVarRef")>>, <<NT("CallArgs")>>, <<NT("Builtin")>>, <<NT("CallNoArgText")>>, <<NT("StrCall")>>, <<X("1")>>}
     [] sym = "ValueRest" ->
          {<<>>} \cup
-         (IF rich THEN {<<X(" "), NT("ValueHead"), NT("ValueRest")>>, <<NT("ValuePiece"), NT("ValueRest")>>} ELSE {})
+         (IF rich THEN {<<X(" "), NT("ValueHead"), NT("ValueRest")>>, <<NT("ValuePiece"), NT("ValueRest")>>} ELSE {}) \cup
+         \* a literal percent sign as the last character of a value: the delimiter that ends the value comes right after it
+         \* (not in programs with a deleted delimiter, where the next thing could be a name)
+         (IF rich /\ ~AllowFault THEN {<<X("%")>>} ELSE {})
     [] sym = "ValuePiece" ->
          \* (a quoted literal glued to a preceding one of the same quote would be one literal with a doubled quote:
          \*  quoted pieces are separated from what precedes them)
